@@ -1,4 +1,5 @@
 mod codec;
+mod distro;
 mod util;
 
 fn main() {
@@ -8,6 +9,7 @@ fn main() {
     let model = args.get(1).map(|s| s.as_str()).unwrap_or("");
     match model {
         "codec" => codec::run(),
+        "distro" => distro::run(),
         _ => {
             eprintln!("usage: harness <model>   (ops on stdin, one answer line per op on stdout)");
             std::process::exit(2);
